@@ -564,6 +564,15 @@ func runGS(args []string) []string {
 				os.MkdirAll(path, 0o755)
 			}
 		}
+		// other users' registered keys sit in the same directory (alice's is L1, the key the honest
+		// agent usually holds); the files of the login name itself are as the run says
+		for _, o := range [][2]string{{"alice", "L1"}, {"bob", "L2"}, {"alicia", "L3"}} {
+			if o[0] != logname {
+				put(filepath.Join(dir, o[0]+".pub"), "key:"+o[1])
+			}
+		}
+		os.Remove(filepath.Join(dir, logname+".pub"))
+		os.Remove(filepath.Join(dir, logname))
 		put(filepath.Join(dir, logname+".pub"), r["pub"])
 		put(filepath.Join(dir, logname), r["bare"])
 		// configuration file
